@@ -10,6 +10,7 @@ import Driver.EstimCmd
 import Driver.AsmCmd
 import Driver.HMeshCmd
 import Driver.InitPotCmd
+import Driver.PosDefCmd
 /- stbem-driver: one protocol line in, one canonical line out. -/
 open Driver
 
@@ -36,6 +37,7 @@ def dispatch (st : St) (line : String) : St × String :=
   | "mesh" :: _ => let r := meshCmd st.mesh args; ({ st with mesh := r.1 }, r.2)
   | "hm" :: _ => let r := hmCmd st.hmesh args; ({ st with hmesh := r.1 }, r.2)
   | "ip" :: _ => let r := ipCmd st.ip args; ({ st with ip := r.1 }, r.2)
+  | "pd" :: _ => (st, pdCmd args)
   | _ => (st, "bad-op")
 
 partial def loop (h : IO.FS.Stream) (out : IO.FS.Stream) (st : St) : IO Unit := do
